@@ -306,7 +306,8 @@ func joinFilter(a []any, sep func(string) string) any {
 	for _, v := range a {
 		v = values.ToLiquid(v) // an element may be a Drop
 		if v != nil {
-			ss = append(ss, values.Sprint(v))
+			// an element that is itself an array or a map may hold Drops and pointers
+			ss = append(ss, values.Sprint(values.Plain(v)))
 		}
 	}
 	return strings.Join(ss, s)
